@@ -299,8 +299,8 @@ func (l *List) Accept(sta funcGen.Stack[Value]) (*List, error) {
 		return nil, err
 	}
 	return NewListFromIterable(func(st funcGen.Stack[Value]) iterator.Producer[Value] {
-		return panicOnCaller(iterator.FilterAuto[Value](l.iterable(funcGen.NewEmptyStack[Value]()), func() func(v Value) (bool, error) {
-			s := funcGen.NewEmptyStack[Value]()
+		return panicOnCaller(iterator.FilterAuto[Value](l.iterable(funcGen.NewEmptyStackBelow(st)), func() func(v Value) (bool, error) {
+			s := funcGen.NewEmptyStackBelow(st)
 			return func(v Value) (accepted bool, err error) {
 				defer recoverAsError(&err)
 				eval, err := f.Eval(s, v)
@@ -322,8 +322,8 @@ func (l *List) Map(sta funcGen.Stack[Value]) (*List, error) {
 		return nil, err
 	}
 	return NewListFromSizedIterable(func(st funcGen.Stack[Value]) iterator.Producer[Value] {
-		return panicOnCaller(iterator.MapAuto[Value, Value](l.iterable(funcGen.NewEmptyStack[Value]()), func() func(i int, v Value) (Value, error) {
-			s := funcGen.NewEmptyStack[Value]()
+		return panicOnCaller(iterator.MapAuto[Value, Value](l.iterable(funcGen.NewEmptyStackBelow(st)), func() func(i int, v Value) (Value, error) {
+			s := funcGen.NewEmptyStackBelow(st)
 			return func(i int, v Value) (mapped Value, err error) {
 				defer recoverAsError(&err)
 				return f.Eval(s, v)
@@ -419,7 +419,7 @@ func (l *List) Merge(sta funcGen.Stack[Value]) (*List, error) {
 				// producing items as soon as the consumer has stopped.
 				var stopped atomic.Bool
 				defer stopped.Store(true)
-				iterator.Merge(stopWhen(recoverInProducer(l.iterable(funcGen.NewEmptyStack[Value]())), &stopped), stopWhen(recoverInProducer(otherList.iterable(funcGen.NewEmptyStack[Value]())), &stopped),
+				iterator.Merge(stopWhen(recoverInProducer(l.iterable(funcGen.NewEmptyStackBelow(st))), &stopped), stopWhen(recoverInProducer(otherList.iterable(funcGen.NewEmptyStackBelow(st))), &stopped),
 					func(a, b Value) (bool, error) {
 						st.Push(a)
 						st.Push(b)
